@@ -856,6 +856,12 @@ static ares_status_t process_answer(ares_channel_t      *channel,
   if (ares_dns_record_get_flags(rdnsrec) & ARES_FLAG_TC &&
       !(conn->flags & ARES_CONN_FLAG_TCP) &&
       !(channel->flags & ARES_FLAG_IGNTC)) {
+    /* Already switched to TCP: this is a duplicate (or belated) truncated
+     * datagram, the query must not be sent over TCP once more for it */
+    if (query->using_tcp) {
+      status = ARES_SUCCESS;
+      goto cleanup;
+    }
     query->using_tcp = ARES_TRUE;
     status = ares_append_requeue(requeue, query, NULL, server);
     /* Status will reflect success except on memory error, which is good since
